@@ -264,13 +264,13 @@ pub trait SurfaceMut: Surface {
     /// Set value at row and column
     fn set(&mut self, pos: Position, item: Self::Item) -> Self::Item {
         let shape = self.shape();
-        debug_assert!(
+        assert!(
             pos.row < shape.height,
             "row {} is out of bound (height {})",
             pos.row,
             shape.height
         );
-        debug_assert!(
+        assert!(
             pos.col < shape.width,
             "column {} is out of bound (width {})",
             pos.col,
@@ -756,7 +756,7 @@ macro_rules! impl_signed_ints(
         $(
             impl ViewBounds for $int_type {
                 fn view_bounds(self, size: usize) -> Option<(usize, usize)> {
-                    let index = self as i64;
+                    let index = self as i128;
                     range_bounds(index..=index, size)
                 }
             }
@@ -790,8 +790,8 @@ macro_rules! impl_range_ints(
                 fn view_bounds(self, size: usize) -> Option<(usize, usize)> {
                     range_bounds(
                         Range {
-                            start: index_i64(self.start),
-                            end: index_i64(self.end),
+                            start: index_i128(self.start),
+                            end: index_i128(self.end),
                         },
                         size,
                     )
@@ -800,27 +800,27 @@ macro_rules! impl_range_ints(
 
             impl ViewBounds for RangeFrom<$int_type> {
                 fn view_bounds(self, size: usize) -> Option<(usize, usize)> {
-                    range_bounds(RangeFrom { start: index_i64(self.start) }, size)
+                    range_bounds(RangeFrom { start: index_i128(self.start) }, size)
                 }
             }
 
             impl ViewBounds for RangeTo<$int_type> {
                 fn view_bounds(self, size: usize) -> Option<(usize, usize)> {
-                    range_bounds(RangeTo { end: index_i64(self.end) }, size)
+                    range_bounds(RangeTo { end: index_i128(self.end) }, size)
                 }
             }
 
             impl ViewBounds for RangeInclusive<$int_type> {
                 fn view_bounds(self, size: usize) -> Option<(usize, usize)> {
-                    let start = index_i64(*self.start());
-                    let end = index_i64(*self.end());
+                    let start = index_i128(*self.start());
+                    let end = index_i128(*self.end());
                     range_bounds(start..=end, size)
                 }
             }
 
             impl ViewBounds for RangeToInclusive<$int_type> {
                 fn view_bounds(self, size: usize) -> Option<(usize, usize)> {
-                    let end = index_i64(self.end);
+                    let end = index_i128(self.end);
                     range_bounds(..=end, size)
                 }
             }
@@ -829,22 +829,22 @@ macro_rules! impl_range_ints(
 );
 impl_range_ints!(u8, i8, u16, i16, u32, i32, u64, i64, usize, isize);
 
-/// Convert index of any integer type to `i64`, values that do not fit are saturated
-fn index_i64<T>(index: T) -> i64
+/// Convert index of any integer type to `i128`, wide enough for every index type and every `usize` size
+fn index_i128<T>(index: T) -> i128
 where
-    i64: TryFrom<T>,
+    i128: TryFrom<T>,
 {
-    i64::try_from(index).unwrap_or(i64::MAX)
+    i128::try_from(index).unwrap_or(i128::MAX)
 }
 
-fn range_bounds(bound: impl RangeBounds<i64>, size: usize) -> Option<(usize, usize)> {
-    let size = index_i64(size);
+fn range_bounds(bound: impl RangeBounds<i128>, size: usize) -> Option<(usize, usize)> {
+    let size = index_i128(size);
     if size == 0 {
         return None;
     }
 
     // negative index counts from the end
-    let resolve = |index: i64| {
+    let resolve = |index: i128| {
         if index < 0 {
             index.saturating_add(size)
         } else {
